@@ -16,6 +16,7 @@ var cmds = map[string]func([]string) int{
 	"b2f-c01": b2f.MainC01,
 	"b2f-c02": b2f.MainC02,
 	"b2f-c04": b2f.MainC04,
+	"b2f-c05": b2f.MainC05,
 	"posrep":  posrep.Main,
 	"url":     urlh.Main,
 }
